@@ -2539,6 +2539,15 @@ impl CanonicalizeContext {
 			if i_base == i {
 				return i + 1;		// nothing around it can serve as a base -- leave the script (with its empty base) as it is
 			}
+			for &child in &mrow_children[i..std::cmp::max(i, i_base)] {
+				// everything in front of the base has to be a prescript (a script with an empty base); anything else would be dropped below
+				let child = as_element(child);
+				let child_name = name(&child);
+				if !(child_name == "msub" || child_name == "msup" || child_name == "msubsup") ||
+				   !CanonicalizeContext::is_empty_element(as_element(child.children()[0])) {
+					return i + 1;
+				}
+			}
 			let mut base = as_element(mrow_children[i_base]);
 			// debug!("convert_to_mmultiscripts -- base\n{}", mml_to_string(&base));
 			let base_name = name(&base);
